@@ -209,7 +209,10 @@ def hex_from_double(value: float | None, factor: int = 1) -> HexStr4:
         return "7FFF"
     if not isinstance(value, float | int):
         raise ValueError(f"Invalid value: {value}, is not a double (a float/int)")
-    return f"{round(value * factor):04X}"  # round, as int() truncates (0.29 * 100)
+    result = round(value * factor)  # round, as int() truncates (0.29 * 100)
+    if not 0 <= result < 2**16:  # would otherwise wrap into a different (valid) value
+        raise ValueError(f"Invalid value: {value}, is out of range")
+    return f"{result:04X}"
 
 
 def hex_to_dtm(value: HexStr12 | HexStr14) -> str | None:  # from parsers
@@ -395,6 +398,8 @@ def hex_from_temp(value: bool | float | None) -> HexStr4:
     # if not -(2**7) <= value < 2**7:  # TODO: tighten range
     #     raise ValueError(f"Invalid temp: {value} is out of range")
     temp = round(value * 100)  # not int(): truncates, e.g. 0.29 * 100 -> 28
+    if not -(2**15) <= temp < 2**15:  # would otherwise wrap into a different (valid) temp
+        raise ValueError(f"Invalid temp: {value} is out of range")
     return f"{temp if temp >= 0 else temp + 2 ** 16:04X}"
 
 
